@@ -21,6 +21,7 @@ import (
 	"runtime"
 	"strings"
 	"sync"
+	"sync/atomic"
 	"time"
 
 	"raven/internal/delivery/lmtp"
@@ -99,6 +100,12 @@ func readLine(cl *world.Client) string {
 	return l
 }
 
+// busyMailbox delivers to life@example.com every 300 ms for the given time
+var busyMailbox func(d time.Duration, gen int64)
+
+// busyGen is advanced when a scenario is over: the deliveries of that scenario stop
+var busyGen atomic.Int64
+
 func imapScenarios() []scenario {
 	login := func(cl *world.Client) bool { return cl.Cmd("LOGIN life@example.com pw").OK() }
 	return []scenario{
@@ -141,6 +148,16 @@ func imapScenarios() []scenario {
 		{"imap", "idle", "imapIdle", func(cl *world.Client, raw net.Conn) bool {
 			ok := login(cl) && cl.Cmd("SELECT INBOX").OK()
 			r := cl.Send("a5", "a5 IDLE\r\n")
+			return ok && strings.HasPrefix(r.Tagged, "+")
+		}},
+		{"imap", "idle-busy-mailbox", "imapIdle", func(cl *world.Client, raw net.Conn) bool {
+			// the selected mailbox keeps changing while the client is gone or silent: the limit counts the client's silence,
+			// not the mailbox's
+			ok := login(cl) && cl.Cmd("SELECT INBOX").OK()
+			r := cl.Send("a5", "a5 IDLE\r\n")
+			if busyMailbox != nil {
+				go busyMailbox(8*time.Second, busyGen.Load())
+			}
 			return ok && strings.HasPrefix(r.Tagged, "+")
 		}},
 		{"imap", "idle-after-done-and-again", "imapIdle", func(cl *world.Client, raw net.Conn) bool {
@@ -280,6 +297,12 @@ func main() {
 	// SASL deadlines run on real sockets in real time (30 s): two silent clients — one that never says a word, one that went
 	// silent after its first line — are attached now and judged when everything else is done
 	muteDone := muteSASL(w, dir, rep, len(only) > 0)
+	busyMailbox = func(d time.Duration, gen int64) {
+		for end, i := time.Now().Add(d), 0; time.Now().Before(end) && busyGen.Load() == gen; i++ {
+			w.Deliver("s@example.org", []string{"life@example.com"}, fmt.Sprintf("From: s@example.org\r\nTo: life@example.com\r\nSubject: busy %d\r\n\r\nx\r\n", i))
+			time.Sleep(300 * time.Millisecond)
+		}
+	}
 	scs := append(imapScenarios(), lmtpScenarios()...)
 	rounds := 1
 	if o.Thorough {
@@ -296,6 +319,7 @@ func main() {
 					continue
 				}
 				rep.Case(id, true)
+				busyGen.Add(1)
 				a, b := net.Pipe()
 				conn := &scaledConn{Conn: a}
 				done := make(chan struct{})
@@ -383,7 +407,7 @@ func main() {
 					case <-done:
 						rep.Hit("silent:ended")
 						el := time.Since(t0)
-						if el+40*time.Millisecond < lastD/scale {
+						if el+150*time.Millisecond < lastD/scale {
 							rep.Violate("broken-correspondence", "timing", fmt.Sprintf("%s: session ended after %v, before its deadline %v/%d", id, el, lastD, scale), replay)
 						}
 						if st == "imapIdle" && el+150*time.Millisecond < idleLimit/scale {
